@@ -32,8 +32,10 @@ impl<'a> Generator<'a> {
         // If we don't have all input, we return `None`
         let mut eoi = TokenStream::default();
 
-        // If the input buffer is a prefix and some transitions are still possible, return None
-        if !state_data.normal.is_empty() {
+        // If the input buffer is a prefix and some transitions are still possible, return None.
+        // This includes the end of input transition: it must only be taken at the real end of
+        // the input, more data could still change (or prevent) the match it stands for.
+        if !state_data.normal.is_empty() || state_data.eoi.is_some() {
             eoi.append_all(quote! {
                 if lex.is_prefix() {
                     lex.end(lex.offset());
